@@ -84,7 +84,16 @@ func keysOf(s *rs.Schema, t *rs.Type, repr bool) ([]tkey, bool) {
 		if !ok {
 			return nil, false
 		}
-		return []tkey{{"a", "a", v, false, t.ValType}, {"b", "b", v, false, t.ValType}}, true
+		ks := s.KeyStrings(t)
+		names := append([]string(nil), ks...)
+		if repr && t.KeyType != "" && t.KeyType != "String" && s.T(t.KeyType).Kind == rs.TEnum {
+			for i, k := range ks {
+				if r, ok := s.Repr(s.T(t.KeyType), ref.Str(k)); ok {
+					names[i] = r.S
+				}
+			}
+		}
+		return []tkey{{names[0], ks[0], v, false, t.ValType}, {names[1], ks[1], v, false, t.ValType}}, true
 	}
 	return nil, false
 }
@@ -344,7 +353,7 @@ func enabledTyped(st tstate, keys []tkey) []string {
 
 func exploreTyped(r *core.Run, eng typed.Engine, s *rs.Schema, t *rs.Type, repr bool) {
 	keys, ok := keysOf(s, t, repr)
-	if !ok || len(keys) == 0 {
+	if !ok || len(keys) == 0 || (!repr && s.ComplexKeys(t)) {
 		return
 	}
 	seen := map[string]bool{tstate{}.key(): true}
